@@ -626,7 +626,14 @@ type LockLeak struct {
 // goroutine started by fn.
 func (la *LockAn) Leaks(fn *ssa.Function) []LockLeak {
 	r := la.Result(fn)
-	handed := map[string]bool{}
+	// the instructions that settle a lock for the function's exit: a deferred unlock, or a goroutine started
+	// by fn that releases it (hand-off); they excuse a return only if every path to it passed one of them
+	settle := map[string][]ssa.Instruction{}
+	for id, ds := range r.DeferredUnlock {
+		for _, d := range ds {
+			settle[id] = append(settle[id], d)
+		}
+	}
 	rawInstrs(fn, func(ins ssa.Instruction) {
 		if g, ok := ins.(*ssa.Go); ok {
 			cal := CalleeFn(&g.Call)
@@ -635,7 +642,7 @@ func (la *LockAn) Leaks(fn *ssa.Function) []LockLeak {
 			}
 			if cal != nil {
 				for id := range la.releasesOf(cal) {
-					handed[id] = true
+					settle[id] = append(settle[id], ins)
 				}
 			}
 		}
@@ -647,7 +654,7 @@ func (la *LockAn) Leaks(fn *ssa.Function) []LockLeak {
 			if _, atEntry := r.Entry[id]; atEntry {
 				continue
 			}
-			if len(r.DeferredUnlock[id]) > 0 || handed[id] {
+			if ss := settle[id]; len(ss) > 0 && !rawReachEntry(fn, ss)[ret] {
 				continue
 			}
 			ids = append(ids, id)
@@ -660,6 +667,36 @@ func (la *LockAn) Leaks(fn *ssa.Function) []LockLeak {
 	return out
 }
 
+// rawReachEntry: instructions of fn reachable from its entry without passing one of cut (fn's own CFG only).
+func rawReachEntry(fn *ssa.Function, cut []ssa.Instruction) map[ssa.Instruction]bool {
+	isCut := map[ssa.Instruction]bool{}
+	for _, c := range cut {
+		isCut[c] = true
+	}
+	seen := map[ssa.Instruction]bool{}
+	seenB := map[*ssa.BasicBlock]bool{}
+	var visit func(b *ssa.BasicBlock)
+	visit = func(b *ssa.BasicBlock) {
+		if seenB[b] {
+			return
+		}
+		seenB[b] = true
+		for _, in := range b.Instrs {
+			if isCut[in] {
+				return
+			}
+			seen[in] = true
+		}
+		for _, s := range b.Succs {
+			visit(s)
+		}
+	}
+	if len(fn.Blocks) > 0 {
+		visit(fn.Blocks[0])
+	}
+	return seen
+}
+
 // ReportLeaks adds a LOCK-RELEASED-ON-EVERY-EXIT obligation for every function of the package.
 func (la *LockAn) ReportLeaks(c *Check, id string, funcs []*ssa.Function) {
 	n := 0
@@ -669,9 +706,36 @@ func (la *LockAn) ReportLeaks(c *Check, id string, funcs []*ssa.Function) {
 			c.Report(false, id, "LOCK-RELEASED-ON-EVERY-EXIT", fn, l.Ret.Pos(), "return holding "+strings.Join(l.IDs, ","), "a lock acquired by this function is still held at this return (every later caller blocks forever)")
 		}
 		has := false
+		res := la.Result(fn)
 		for _, cl := range rawCallsIn(fn) {
-			if op, ok := la.opOf(cl); ok && (op.mode == 'W' || op.mode == 'R') {
+			op, ok := la.opOf(cl)
+			if !ok {
+				continue
+			}
+			if op.mode == 'W' || op.mode == 'R' {
 				has = true
+				continue
+			}
+			// an unlock of a lock that is not held is a fatal runtime error (and an unlock in the other mode too)
+			if _, isDefer := cl.(*ssa.Defer); isDefer {
+				for _, ret := range Returns(fn) {
+					if !rawReachEntry(fn, []ssa.Instruction{cl})[ret] {
+						m, held := res.Before[ret][op.id]
+						okM := held && ((op.mode == 'w' && m == 'W') || (op.mode == 'r' && m == 'R'))
+						if !okM {
+							c.Report(false, id, "UNLOCK-OF-HELD-LOCK", fn, cl.Pos(), "deferred unlock of "+op.id, "a deferred unlock runs with the lock held in the matching mode at every return it covers (unlocking a lock that is not held is a fatal runtime error)", "at the return "+c.P.Pos(ret.Pos())+" held: "+res.Before[ret].String())
+						}
+					}
+				}
+				continue
+			}
+			if _, isGo := cl.(*ssa.Go); isGo {
+				continue
+			}
+			m, held := res.Before[cl][op.id]
+			okM := held && ((op.mode == 'w' && m == 'W') || (op.mode == 'r' && m == 'R'))
+			if !okM {
+				c.Report(false, id, "UNLOCK-OF-HELD-LOCK", fn, cl.Pos(), "unlock of "+op.id, "an unlock runs with the lock held in the matching mode (unlocking a lock that is not held is a fatal runtime error)", "held: "+res.Before[cl].String())
 			}
 		}
 		if has {
